@@ -79,7 +79,14 @@ def table_to_rows(table, fmt):
     def f():
         pt = {}
         for name in fmt.field_names():
-            pt[name] = plain(getattr(table, name))
+            v = getattr(table, name)
+            if hasattr(v, "__dataclass_fields__") and not isinstance(v, type):
+                # a table-valued column (typed VCF INFO): its keys are parsed on access; an exception of the library must
+                # surface here (plain() is total and would render it as text)
+                import dataclasses
+                for sub in dataclasses.fields(v):
+                    getattr(v, sub.name)
+            pt[name] = plain(v)
         n = len(table)
         return pt, n
     r = call(f)
